@@ -52,7 +52,7 @@ theorem N2_dec_eq_pn (hc : c * c = 2)
   subst hl0 hl1 hl2
   simp only [solM2, M2, M3.mk.injEq, and_true, true_and] at hM
   obtain ⟨rfl, rfl, rfl, rfl⟩ := hM
-  simp only [solvp]
+  (try simp only [solvp])
   refine ⟨?_, ?_, ?_, ?_, ?_, ?_⟩
   · c05_dec hc
   · c05_dec hc
@@ -76,7 +76,7 @@ theorem N2_dec_eq_zz (hc : c * c = 2)
   subst hl0 hl1 hl2
   simp only [solM2, M2, M3.mk.injEq, and_true, true_and] at hM
   obtain ⟨rfl, rfl, rfl, rfl⟩ := hM
-  simp only [solvp]
+  (try simp only [solvp])
   refine ⟨?_, ?_, ?_, ?_, ?_, ?_⟩
   · c05_dec hc
   · c05_dec hc
@@ -100,7 +100,7 @@ theorem N2_dec_dist_pnp (hc : c * c = 2)
   subst hl0 hl1 hl2
   simp only [solM2, M2, M3.mk.injEq, and_true, true_and] at hM
   obtain ⟨rfl, rfl, rfl, rfl⟩ := hM
-  simp only [solvp]
+  (try simp only [solvp])
   refine ⟨?_, ?_, ?_, ?_, ?_, ?_⟩
   · c05_dec hc
   · c05_dec hc
@@ -124,7 +124,7 @@ theorem N2_dec_dist_zpn (hc : c * c = 2)
   subst hl0 hl1 hl2
   simp only [solM2, M2, M3.mk.injEq, and_true, true_and] at hM
   obtain ⟨rfl, rfl, rfl, rfl⟩ := hM
-  simp only [solvp]
+  (try simp only [solvp])
   refine ⟨?_, ?_, ?_, ?_, ?_, ?_⟩
   · c05_dec hc
   · c05_dec hc
